@@ -718,6 +718,7 @@ func ext۰reflect۰Value۰MapIndex(fr *frame, args []value) value {
 		k = fr.concKey(mt.Key(), sk)
 	}
 	m := rV2V(args[0]).(*omap)
+	k = fr.resolveStrKey(m, k)
 	if v, ok := m.get(k); ok {
 		return makeReflectValue(mt.Elem(), copyOf(mt.Elem(), v))
 	}
@@ -738,6 +739,7 @@ func ext۰reflect۰Value۰SetMapIndex(fr *frame, args []value) value {
 		k = fr.concKey(mt.Key(), sk)
 	}
 	m := rV2V(args[0]).(*omap)
+	k = fr.resolveStrKey(m, k)
 	et := rV2T(args[2]).t
 	if et == nil {
 		m.del(k)
